@@ -54,7 +54,7 @@ def setup():
             sys.stderr.write(r.stdout[-3000:])
             ck.die("cargo miri setup failed")
         # one run builds every dependency for the Miri target
-        code, out = one_run("in_runtime", 1, 1, "0.01")
+        code, out = one_run("noop", 1, 1, "0.01")
         if code != 0:
             sys.stderr.write(out[-3000:])
             ck.die("Miri engine smoke run failed")
@@ -91,7 +91,7 @@ def run_batch(prop, scenarios, n_runs, seed):
     prepare()
     with ck.Lock("miri-build"):
         # build once up front so that the parallel runs only interpret
-        code, out = one_run("in_runtime", 1, 1, "0.01")
+        code, out = one_run("noop", 1, 1, "0.01")
         if code != 0:
             sys.stderr.write(out[-3000:])
             ck.die("Miri build / smoke run failed (does /repo still compile?)")
